@@ -610,9 +610,14 @@ func finish(t *rapid.T, z *zm.Zone, nrender int) zoneCase {
 	return c
 }
 
+// underFuzz: the case is drawn for the coverage-guided layer (pbt.FuzzGen; the driver sets
+// VERIF_FUZZ). Its workers give one input 10 s, 16 of them run side by side: the ranges of tens of
+// thousands of steps (a size class, seconds per case on a loaded machine) are left to the rapid runs.
+func underFuzz() bool { return os.Getenv("VERIF_FUZZ") != "" }
+
 func genZoneCase(t *rapid.T) zoneCase {
 	o := genOpts()
-	o.BigGenerate = pbt.Thorough() && rapid.IntRange(0, 99).Draw(t, "big") == 99
+	o.BigGenerate = pbt.Thorough() && rapid.IntRange(0, 99).Draw(t, "big") == 99 && !underFuzz()
 	z := zm.GenZone(t, o)
 	return finish(t, z, rapid.IntRange(2, 3).Draw(t, "nrender"))
 }
@@ -624,7 +629,7 @@ func genGenerateCase(t *rapid.T) zoneCase {
 	o.NoIncludes = true
 	o.NoSamples = true
 	o.OnlyGenerate = true
-	o.BigGenerate = rapid.IntRange(0, 40).Draw(t, "big") >= 39
+	o.BigGenerate = rapid.IntRange(0, 40).Draw(t, "big") >= 39 && !underFuzz()
 	z := zm.GenZone(t, o)
 	return finish(t, z, 2)
 }
